@@ -8,11 +8,11 @@ export PYTHONPATH="/repo:$here/harness" PYTHONHASHSEED=0 PYTHONDONTWRITEBYTECODE
 import sys, os
 sys.path.insert(0, "harness")
 import lib
+import tables
 try:
-    import tables
     tables.regenerate()
-except ImportError:
-    pass
+except Exception as e:
+    print("table regeneration failed:", e)
 lib.ensure_makefile()
 PY
 cd coq
